@@ -466,7 +466,8 @@ class Region(object):
             sky = np.array(list(zip(ra, dec)))
         except TypeError:
             sky = np.array([(ra, dec)])
-        return sky
+        # empty input still needs to be a list of (ra, dec) pairs
+        return sky.reshape((-1, 2))
 
     @staticmethod
     def sky2ang(sky):
